@@ -361,7 +361,13 @@ fn modes_for(t: &Target, phase: Phase, len: usize, out: &mut Vec<Mode>) {
                 Phase::Mut2(_) => 0,
             };
             if len > 2 && len <= limit {
-                for k in 1..len {
+                // token strings inside a fixed template: cuts from the end of the fixed prefix on
+                // (cuts inside the prefix are exercised by the seeds and the 1-byte delivery)
+                let from = match phase {
+                    Phase::Tokens => t.prefix.len().max(1),
+                    _ => 1,
+                };
+                for k in from..len {
                     out.push(Mode::Cut(k as u32));
                 }
             }
@@ -433,6 +439,8 @@ struct Local {
     nontrivial: HashSet<u64>,
     nontrivial_cases: u64,
     samples: Vec<Sample>,
+    /// per target: a case is a sample candidate only below this content hash
+    sample_bar: Vec<u64>,
     viol: BTreeMap<String, (u64, String, Violation)>,
     violating_cases: u64,
 }
@@ -441,7 +449,7 @@ const SAMPLES_PER_TARGET: usize = 2;
 
 impl Local {
     fn new(nt: usize) -> Self {
-        Local { evals: vec![0; nt], outcomes: vec![BTreeMap::new(); nt], ..Default::default() }
+        Local { evals: vec![0; nt], outcomes: vec![BTreeMap::new(); nt], sample_bar: vec![u64::MAX; nt], ..Default::default() }
     }
     fn merge(&mut self, o: Local) {
         for (a, b) in self.evals.iter_mut().zip(o.evals) {
@@ -456,6 +464,9 @@ impl Local {
         self.nontrivial.extend(o.nontrivial);
         self.nontrivial_cases += o.nontrivial_cases;
         self.samples.extend(o.samples);
+        if self.samples.len() > 4096 {
+            trim_samples(&mut self.samples);
+        }
         self.violating_cases += o.violating_cases;
         for (k, v) in o.viol {
             let better = match self.viol.get(&k) {
@@ -729,10 +740,22 @@ pub fn sweep(group: &Group, cfg: SweepCfg) -> SweepResult {
                                         if c != baselines[u.target] {
                                             local.nontrivial_cases += 1;
                                             let h = fnv_parts(&[t.name.as_bytes(), c.as_bytes(), shape.as_bytes(), &[mode.kind()]]);
-                                            if local.nontrivial.insert(h) {
-                                                local.samples.push(Sample { h, target: t.name.clone(), input: mc_core::show_short(input, 120), mode: mode.label(), outcome: c.clone() });
-                                                if local.samples.len() > 4096 {
-                                                    trim_samples(&mut local.samples);
+                                            local.nontrivial.insert(h);
+                                            // samples: the non-trivial cases with the smallest content hash per
+                                            // target (a property of the case, not of the exploration order)
+                                            let sh = fnv_parts(&[input, &mode.code().to_le_bytes()]);
+                                            if sh < local.sample_bar[u.target] {
+                                                local.samples.push(Sample { h: sh, target: t.name.clone(), input: mc_core::show_short(input, 120), mode: mode.label(), outcome: c.clone() });
+                                                let mine: Vec<u64> = {
+                                                    let mut v: Vec<u64> = local.samples.iter().filter(|s| s.target == t.name).map(|s| s.h).collect();
+                                                    v.sort_unstable();
+                                                    v.dedup();
+                                                    v
+                                                };
+                                                if mine.len() >= SAMPLES_PER_TARGET {
+                                                    local.sample_bar[u.target] = mine[SAMPLES_PER_TARGET - 1];
+                                                    let bar = local.sample_bar[u.target];
+                                                    local.samples.retain(|s| s.target != t.name || s.h <= bar);
                                                 }
                                             }
                                         }
